@@ -269,6 +269,44 @@ theorem soap_envelope_called_or_client_fault (k : EnvKey) :
 example : ∃ c, facts10.env ⟨false, .own, .one, .empty⟩ = .clientFault c := ⟨"Client.SoapError", by decide +kernel⟩
 example : facts10.env ⟨true, .own, .two, .valid⟩ = .called := by decide +kernel
 
+/-! ### SOAP multi-references and the url of the request -/
+
+/-- every measured `id` / `href` shape of a Soap11 / Soap12 request — a reference that resolves, to a missing id, empty, in a
+    cycle of two, into itself, at the method element, duplicate ids, a long chain — is served or refused with a Client fault -/
+theorem facts10_hrefs : hrefTableOk facts10 = true := by decide +kernel
+
+theorem soap_multiref_called_or_client_fault (k : HrefKey) :
+    let q : Req := { proto := if k.soap12 then .soap12 else .soap11, parse := .doc, dispatch := (facts10.href k).codec, deser := .ok }
+    runBase facts10 q = .ok 1 ∨ ∃ c, runBase facts10 q = .fault c 0 ∧ isClient c = true := by
+  intro q
+  have hdoc : createInDocument facts10 q = none := rfl
+  have hg := href_good facts10 facts10_hrefs k
+  cases hd : facts10.href k with
+  | called => exact Or.inl (runBase_valid facts10 q hdoc (by simp [q, hd, EnvDecision.codec]) rfl rfl)
+  | clientFault c =>
+    refine Or.inr ⟨c, runBase_dispatch_fault facts10 facts10_faults_kept.1 q c hdoc (by simp [q, hd, EnvDecision.codec]), ?_⟩
+    rw [hd] at hg; exact hg
+  | serverFault c => rw [hd] at hg; simp [EnvDecision.good] at hg
+  | escape e => rw [hd] at hg; simp [EnvDecision.good] at hg
+
+/-- SCRIPT_NAME {empty, "/", "//x", a name} x PATH_INFO {empty, "/", a name} x HTTP_HOST {absent, host, host:port, junk} x
+    {http, https}, per protocol family: reconstructing the url never lets an exception out -/
+theorem facts10_urls : urlTableOk facts10 = true := by decide +kernel
+
+/-- `funnel_total` for the callable including its first step -/
+theorem funnel_total_wsgi_url (u : UrlKey) (k : PreKey) (hav : facts10.pre k ≠ .unavailable) (q : Req) (ho : q.Ordinary) :
+    (∃ s n, runWsgiUrl facts10 u k q = .ok s n) ∨ (∃ c s n, runWsgiUrl facts10 u k q = .fault c s n) := by
+  have hu := url_ok facts10 facts10_urls u
+  unfold runWsgiUrl
+  cases hd : facts10.url u with
+  | proceed => exact funnel_total_wsgi k hav q ho
+  | reject c s => exact Or.inr ⟨c, s, 0, rfl⟩
+  | escape n => rw [hd] at hu; simp [urlRowOk] at hu
+  | unavailable => rw [hd] at hu; simp [urlRowOk] at hu
+
+example : facts10.url ⟨.plain, .slash, .empty, .absent, false⟩ = .proceed := by decide +kernel
+example : ∃ d, facts10.href ⟨false, .cycle⟩ = d ∧ d.good = true := ⟨_, rfl, href_good facts10 facts10_hrefs _⟩
+
 /-! ### the leaf parsers -/
 
 /-- the leaf parsers of the shared vocabulary (integers, booleans, strings, date, time, dateTime, duration, the three
